@@ -250,7 +250,10 @@ slow_copy:
 	sub	p, last_len	; adjust data pointer
 	lea	p2, [lane_data + _xcbc_final_block + 16] ; upper part of final
 	sub	p2, last_len	; adjust data pointer backwards
+	or	last_len, last_len	; empty message: nothing to copy (and nothing to read)
+	jz	skip_copy
 	memcpy_avx_16_1 p2, p, last_len, tmp, tmp2
+skip_copy:
         vmovdqa	xmm0, [rel x80]	; fill reg with padding
 	vmovdqu	[lane_data + _xcbc_final_block + 16], xmm0 ; add padding
 	vmovdqu	xmm0, [p2]	; load final block to process
